@@ -123,8 +123,16 @@ pub fn check(c: &Case, ctx: &mut Ctx) -> Result<(), Failure> {
             )?;
         }
         // 4. DataItem behaves like any other implementor carrying the same numbers
+        #[cfg(feature = "serde")]
+        let item_of = |b: &RawBar| -> Option<ta::DataItem> {
+            // with serde a DataItem can carry *any* five numbers (restored from a checkpoint), not only
+            // the consistent tuples the builder accepts
+            b.to_data_item().or_else(|| bincode::serialize(&[b.o, b.h, b.l, b.c, b.v]).ok().and_then(|bytes| bincode::deserialize::<ta::DataItem>(&bytes).ok()))
+        };
+        #[cfg(not(feature = "serde"))]
+        let item_of = |b: &RawBar| -> Option<ta::DataItem> { b.to_data_item() };
         if item_ok {
-            match b.to_data_item() {
+            match item_of(b) {
                 Some(item) => {
                     use ta::{Close, High, Low, Open, Volume};
                     if item.open().to_bits() != b.o.to_bits() || item.high().to_bits() != b.h.to_bits() || item.low().to_bits() != b.l.to_bits() || item.close().to_bits() != b.c.to_bits() || item.volume().to_bits() != b.v.to_bits() {
